@@ -36,8 +36,10 @@ pub fn glob_obs(p: &str, t: &str, lit: bool) -> Value {
     let whole = PushCondition::EventMatch { key: "content.x".into(), pattern: p.to_owned() }.applies(&f, &c);
     let word = PushCondition::EventMatch { key: "content.body".into(), pattern: p.to_owned() }.applies(&f, &c);
     let mut o = json!({"whole": whole, "word": word});
-    if lit && !p.is_empty() {
+    if !p.is_empty() {
         o["dn"] = json!(PushCondition::ContainsDisplayName.applies(&f, &ctx(p, 2)));
+    }
+    if lit && !p.is_empty() {
         // a content rule is an event_match on content.body
         let mut rs = Ruleset::new();
         rs.content.insert(PatternedPushRule::from(NewPatternedPushRule::new("c".into(), p.to_owned(), vec![Action::Notify])));
